@@ -749,6 +749,28 @@ func (p *Path) mkSubstr(s, off, n value) value {
 			}
 		}
 	}
+	// a concrete start position inside a concatenation: drop the segments that
+	// always end before it and cut inside the segment that always contains it
+	if segs := segmentsOf(s); len(segs) > 1 && ook && oc > 0 && p.interp != nil {
+		var acc value = int64(0)
+		for k, sg := range segs {
+			next := p.mkAdd(acc, p.mkLen(sg))
+			if p.validCond(p.mkIntCmp("<=", next, off)) {
+				acc = next
+				continue
+			}
+			if k > 0 && p.validCond(p.mkIntCmp("<=", acc, off)) {
+				in := p.mkSub(off, acc)
+				piece := p.mkSubstr(sg, in, p.mkSub(p.mkLen(sg), in))
+				rest := mkConcat(piece, concatOf(segs[k+1:]))
+				if rl := p.mkLen(rest); tInt(rl) == tInt(n) || p.validEq(rl, n) {
+					return rest
+				}
+				return p.mkSubstr(rest, int64(0), n)
+			}
+			break
+		}
+	}
 	r := &Sym{sort: SStr, e: "(str.substr " + tStr(s) + " " + tInt(off) + " " + tInt(n) + ")", ln: n, op: "substr", a: []interface{}{s, off, n}}
 	if ss, ok := s.(*Sym); ok {
 		if a, ok := p.alpha[ss.e]; ok {
